@@ -154,6 +154,72 @@ def crash_cases(ck, kind, n, gen):
     torn = [[c[0], c[1], [0] + c[2]] for c in cases if len(c[4]) > 1]
     return cases, torn
 
+# ---- several flushes in a row, crashes in between, the directory never cleaned ----
+GROW_U = ["dave", "erin", "frank", "grace", "heidi", "ivan", "judy"]
+GROW_R = ["/g1/", "/g2", "/g3/x/", "/g4", "/g5/y", "/g6/", "/g7"]
+
+def grow_ops(rng, kind, n):
+    ops = []
+    for name in rng.sample(GROW_U if kind == "u" else GROW_R, n):
+        if kind == "u":
+            ops.append([0, [[name, rng.choice(PWS), rng.random() < 0.3, rng.choice(ACC), rng.choice(ACC)], True]])
+        else:
+            ops.append([0, [name, rng.choice(URLS[:5]), rng.random() < 0.3]])
+    return ops
+
+def shrink_ops(rng, kind):
+    pool = (GROW_U + ["admin", "bob", "alice", "carol", "x"]) if kind == "u" else (GROW_R + ["/a", "/a/", "/b/", "/live/"])
+    return [[1, k] for k in pool if rng.random() < 0.8]
+
+def recrash_cases(ck, kind, n, gen):
+    rng = ck.rng
+    pre = []
+    for _ in range(n):
+        old = gen(rng, rng.randint(0, 5))
+        rounds = []
+        nr = rng.randint(2, 4)
+        for j in range(nr - 1):
+            style = rng.random()
+            delta = grow_ops(rng, kind, rng.randint(2, 6)) if style < 0.6 else \
+                    shrink_ops(rng, kind) if style < 0.75 else [o for o in gen(rng, rng.randint(1, 5)) if o[0] != 4]
+            i = rng.choice([0, 1, 1, 2, 2, 3, 4, 4, 5])
+            rounds.append([delta, i, 0])
+        style = rng.random()
+        last = shrink_ops(rng, kind) if style < 0.6 else grow_ops(rng, kind, rng.randint(1, 3)) if style < 0.9 else []
+        if style < 0.3:
+            last = last + grow_ops(rng, kind, 1)
+        rounds.append([last, 5, 0])
+        pre.append([old, rounds])
+    enc = ck.stream(kind + "-round-encodings", pre, None, "C18_%sencs" % kind, None, sample=1)
+    cases = []
+    for (old, rounds), e in zip(pre, enc):
+        v = vlib.vparse(e)
+        if not (isinstance(v, list) and len(v) == 2 and isinstance(v[1], list) and len(v[1]) == len(rounds)):
+            ck.fail(kind + "-round-encodings", "encodings-harness", vlib.vs([old, rounds]), observed=e)
+            continue
+        oldf, datas = v
+        for r, dta in zip(rounds, datas):
+            if r[1] == 1 and len(dta) > 2 and rng.random() < 0.7:      # a torn write
+                r[2] = rng.choice([1, len(dta) - 1, rng.randint(1, len(dta) - 1)])
+        cases.append([old, rounds, oldf, datas])
+    return cases
+
+def recrash_project(line):
+    """stray temporary files have random names: compare them as a multiset of contents"""
+    try:
+        v = vlib.vparse(line)
+        for o in v:
+            o[1] = sorted(o[1])
+        return vlib.vs(v)
+    except Exception:
+        return line
+
+def recrash_nontrivial(c):
+    # a flush interrupted after (part of) its write, followed later by a completed flush of fewer bytes
+    datas = c[3]
+    rounds = c[1]
+    return any(1 <= rounds[j][1] <= 4 and len(datas[j]) > len(datas[-1]) for j in range(len(rounds) - 1))
+
 def run(ck):
     if not ck.prepare():
         return ck.finish(rule="build failed")
@@ -166,7 +232,7 @@ def run(ck):
     rcases = [gen_rops(rng, rng.randint(3, 40 if T else 16)) for _ in range(n)]
     ck.stream("route-histories", rcases, "C18_routes_run", "C18_routes", "C18_routes_ok",
               nontrivial=hist_nontrivial, sig=lambda c, e, o: "route-history", project=hist_project)
-    m = 300 if T else 24
+    m = 300 if T else 16
     def gu(r, k): return gen_uops(r, k, restarts=False)
     def gr(r, k): return gen_rops(r, k, restarts=False)
     cn = lambda c: len(c[2]) >= 3 and len(c[3]) == 1
@@ -176,6 +242,13 @@ def run(ck):
     rc, rt = crash_cases(ck, "r", m, gr)
     ck.stream("route-crash", rc, "C18_rcrash_run", "C18_rcrash", "C18_rcrash_ok",
               nontrivial=cn, sig=lambda c, e, o: "route-crash", timeout=3000, sample=1)
+    mr = 300 if T else 30
+    ck.stream("user-crash-then-flush", recrash_cases(ck, "u", mr, gu), "C18_urecrash_run", "C18_urecrash", "C18_urecrash_ok",
+              nontrivial=recrash_nontrivial, sig=lambda c, e, o: "user-crash-then-flush", timeout=3000, sample=1,
+              project=recrash_project)
+    ck.stream("route-crash-then-flush", recrash_cases(ck, "r", mr, gr), "C18_rrecrash_run", "C18_rrecrash", "C18_rrecrash_ok",
+              nontrivial=recrash_nontrivial, sig=lambda c, e, o: "route-crash-then-flush", timeout=3000, sample=1,
+              project=recrash_project)
     # the JSON laws (trusted base of the crash theorems) on the real decoder, and at the same time the
     # states the pre-repair sequence OpenFile(O_TRUNC)+write could leave: empty / torn target => LoadAll fails
     tn = lambda c: len(c[2]) >= 3
@@ -198,7 +271,13 @@ def run(ck):
              "is killed (SIGKILL) at each hook point of EncodeJSONFile in turn; the directory after each death, plus the file "
              "being written truncated to prefix classes {1, n/2, n-1, 2 random} (thorough: every length for 12 cases per table kind), is "
              "compared byte for byte with the model's crash_states and loaded by a fresh provider: the result must be the "
-             "complete old or new table (crash_ok); the hook log must equal the model's operation names.  (3) the JSON laws on "
+             "complete old or new table (crash_ok); the hook log must equal the model's operation names.  (2b) crash-then-flush: 2-4 "
+             "servers in a row on ONE directory that is never cleaned: each starts on what the previous left (stray temporary "
+             "files included), applies a delta (grow by 2-6 entries / delete most entries / random) and flushes; all but the last "
+             "are killed at a random hook point or inside the write (torn to 1, n-1 or a random length), the last one completes; "
+             "after every round the directory (target + multiset of stray files) is compared with the model and a fresh provider "
+             "must load the old or new table, after the completed flush exactly the new one (round_ok); non-trivial = a flush "
+             "interrupted after (part of) its write followed by a completed flush of fewer bytes.  (3) the JSON laws on "
              "the real decoder: the target overwritten with its own prefixes must not load.  (4) the known finding is replayed.",
         trusted=["JSON (encoding/json Marshal+Indent / Unmarshal) is an oracle constrained by the laws roundtrip "
                  "(decode (encode t) = Some t), prefix_safe (a strict prefix of an encoding does not decode to a different "
